@@ -12,8 +12,8 @@ Ev == TraceLog[l]
 \* JSON arrays arrive as tuples: rebuild the character sets
 RECURSIVE FromJ(_)
 FromJ(t) == CASE t[1] \in {"set", "nset"} -> <<t[1], {t[2][k] : k \in DOMAIN t[2]}>>
-              [] t[1] \in {"seq", "or"} -> <<t[1], FromJ(t[2]), FromJ(t[3])>>
-              [] t[1] \in {"star", "plus", "opt", "sub", "nocase"} -> <<t[1], FromJ(t[2])>>
+              [] t[1] \in {"seq", "or", "cor", "cand", "cdiff"} -> <<t[1], FromJ(t[2]), FromJ(t[3])>>
+              [] t[1] \in {"star", "plus", "opt", "sub", "nocase", "ascii", "ccompl", "cnocase", "cascii"} -> <<t[1], FromJ(t[2])>>
               [] t[1] = "rep" -> <<"rep", t[2], t[3], FromJ(t[4])>>
               [] OTHER -> t
 
@@ -28,7 +28,7 @@ Failed(ev) ==
        n == Len(s)
        inL == Matches(r, s)
        found == Search(r, s)
-   IN  IF ~WF(r) THEN 1
+   IN  IF ~WF(r) \/ (UsesNamed(r) /\ \E k \in 1..n : s[k] \notin KnownChars) THEN 1
        ELSE IF ev.err # 0 THEN 2
        ELSE Bit((ev.m = 1) = inL, 4)
             + Bit((ev.mf = 1) = inL, 8)
